@@ -196,7 +196,17 @@ not a wake-up the waiter is owed: "every routine that was waiting … at the mom
 below have as many posts as waits and end blocked, legitimately; the invariant form (`C18_no_lost_wakeup`: a suspended
 broadcast waiter registered after the last post, a suspended condition waiter still has an unposted key) is the
 statement's clause for them and holds for every program.
--- OPEN: a progress theorem for Condition / Broadcast under a schedule hypothesis (every post happens after the matching wait). -/
+Round 6: for `Broadcast` the ORDER hypothesis is stated and proved exact in ProgressBC.lean (`C18_progress_broadcast`,
+`C18_progress_broadcast_iff`: scripts of waits, posts from the main context, every wait matched in order by a post issued
+after the create).
+For `Condition` (kAll / kAny) the hypothesis is the order semantics of add / wait / post over the table of condition
+objects with the scheduler abstracted away (ProgressCD.lean: `C18_progress_condition`, `C18_progress_condition_iff`; a post
+before the WAIT counts, `C18_condition_post_consumes`; a post before the ADD is lost, counterexample below).
+ProgressWP.lean: `Broadcast` and `Condition` MIXED in one program with shared objects (`C18_progress_waitpost_iff`: the model's
+condition objects, waiter lists and remaining scripts ARE those of the order semantics; all Dead iff `AllServed`).
+-- OPEN: one theorem that also contains the counting class of `Matched` (channels, semaphores, mutexes, joins), and posts
+-- issued by ROUTINES rather than by the main context (a poster that does not yield posts back-to-back, so a waiter is
+-- served at most once per poster run; with yields the number of schedule() tasks per pass enters: no longer static). -/
 
 theorem C18_progress_broadcast_needs_order_counterexample :
     let s := run init [.define false [.post 0], .define false [.yield, .bwait 0], .new 0 true, .new 1 true, .pass, .pass]
